@@ -414,6 +414,9 @@ def serverfirst_case(case, t: Tally, verbose=False):
             x = pending.pop(0)
             for c in top.handle_event(x):
                 if isinstance(c, mcommands.OpenConnection):
+                    # what server.py's open_connection does on success
+                    c.connection.timestamp_start = 1.0
+                    c.connection.timestamp_tcp_setup = 1.0
                     c.connection.state = connection.ConnectionState.OPEN
                     pending.append(mevents.OpenConnectionCompleted(c, None))
                 elif isinstance(c, mlayer.NextLayerHook):
@@ -462,7 +465,7 @@ def serverfirst_case(case, t: Tally, verbose=False):
                 if data:
                     progress = True
                     feed(mevents.DataReceived(client, data))
-            if (cdone and seen["established"]) or not progress:
+            if (cdone and udone and seen["established"]) or not (progress or (not udone and uinc.pending) or (not cdone and cinc.pending)):
                 break
     except KeyboardInterrupt:
         raise
